@@ -264,7 +264,7 @@ def one_trace(rng, case, bname, parameter=True, observed=False, via_copy=False, 
 B2 = {"scale": lambda: tfb.Scale(0.5), "shift": lambda: tfb.Shift(1.25), "chain": lambda: tfb.Chain([tfb.Shift(-0.5), tfb.Scale(2.0)])}
 
 
-def chained_trace(rng, case, b1name, b2name):
+def chained_trace(rng, case, b1name, b2name, first="var"):
     """x is transformed with a bijector instance, and the new unconstrained variable is transformed again
     (u = b2^-1(t), t = b1^-1(x)); the model holds all three; afterwards u and the distribution's parameter variables are
     assigned.  Leaves: x = b1(b2(u)), log p_u(u) = log p_x(b1(b2(u))) + fldj_b1(b2(u)) + fldj_b2(u)."""
@@ -295,7 +295,14 @@ def chained_trace(rng, case, b1name, b2name):
 
     ev = []
     args, kwargs = mk({})
-    t = x.transform(*args, **kwargs)
+    if first == "gb":       # the first transformation through the deprecated builder method
+        import warnings
+        with warnings.catch_warnings():
+            warnings.simplefilter("ignore")
+            t = lsl.GraphBuilder().add(x).transform(x, *args, **kwargs)
+        hdr["mode"] = "deprecated_gb"
+    else:
+        t = x.transform(*args, **kwargs)
     ev.append({"ev": "transform", "var": "x", "bij": b1name, "structural_only": True, "ok": True, "reason": "none",
                "new_name": t.name, "names": names3[:2], "flags": flags_of({"x": x, "x_transformed": t})})
     e = {"ev": "transform", "var": "x_transformed", "bij": b2name}
@@ -426,4 +433,6 @@ def all_traces(rng, reps=1):
     for case, b1name, b2name in (("exponential", "exp_instance", "scale"), ("gamma_varparam", "exp_instance", "shift"),
                                  ("beta", "sigmoid_instance", "chain"), ("invgamma", "softplus_instance", "scale")):
         out.append(chained_trace(rng, case, b1name, b2name))
+    out.append(chained_trace(rng, "exponential", "exp_instance", "scale", first="gb"))
+    out.append(chained_trace(rng, "gamma_varparam", "exp_instance", "shift", first="gb"))
     return out
